@@ -11,8 +11,8 @@ from pathlib import Path
 VERIF = Path(__file__).resolve().parent.parent
 REPO = Path(os.environ.get("VERIF_REPO", "/repo"))
 CACHE = VERIF / ".cache"
-EVIDENCE = VERIF / "evidence"
-REPLAYS = CACHE / "replays"
+EVIDENCE = Path(os.environ.get("VERIF_EVIDENCE", str(VERIF / "evidence")))
+REPLAYS = Path(os.environ.get("VERIF_REPLAYS", str(CACHE / "replays")))
 SCRATCH = CACHE / "scratch"
 KNOWN = VERIF / "known_findings.json"
 
